@@ -6,16 +6,18 @@ Model of pyLife's mesh operators (property C19):
   `np.linalg.inv`, `Σₐ fₐ Σⱼ ∂φₐ/∂ξⱼ · J⁻¹[j,k]`), elements taken in ascending element id (stable), per node
   the value of the first row (`~index.duplicated(keep='first')`);
 * `mesh/gradient.py`  `Gradient` – per node the least-squares plane through the neighbour nodes (nodes that
-  share an element): rows `x_j − x_i`, right-hand side `f_j − f_i`, `np.linalg.lstsq` (modelled by the normal
-  equations `(AᵀA)⁻¹Aᵀb`; minimum-norm solution when every `Δz` is zero = the 2×2 system with `∂/∂z = 0`).
+  share an element): rows `x_j − x_i`, right-hand side `f_j − f_i`, `np.linalg.lstsq(rcond=None)` = the
+  minimum-norm least-squares solution (`lstsq3`: normal equations for rank 3, `(t·r − M r)/e₂` for rows in one
+  plane of ANY orientation, `r/t` for rows on one line).
   Node rows are addressed through the id → position map of the sorted node ids (the behaviour after the
   repair of F-5; the unrepaired code uses `id − 1` as position);
 * `mesh/hotspot.py`  `HotSpot.calc` / `__hs_sel` – threshold `≥ limit_frac · max`, region growing over rows
   that share a node id or an element id, labels 1, 2, … by descending peak;
-* `mesh/meshmapping.py` – `scipy.interpolate.griddata(method='linear')` inside ONE simplex: barycentric
-  interpolation (the Delaunay triangulation itself is external);
+* `mesh/meshmapping.py` – `scipy.interpolate.griddata(method='linear')` on a triangulation handed in by the caller
+  (`mapMesh3` / `mapMesh2`: value of the first simplex that contains the point, barycentric interpolation, NaN
+  outside every simplex); the Delaunay triangulation itself (Qhull) is external;
 * `mesh/surface.py` – for hexahedral block meshes only: a node is flagged iff fewer than 8 elements meet
-  there (the solid-angle arithmetic is not modelled).
+  there (the solid-angle arithmetic is not modelled); `blockRows` is the block mesh the theorem speaks about.
 
 The numeric functions are generic in the carrier (driver: `Float`, proofs: `ℝ`); the hot-spot model only needs
 an order and a product.  No Mathlib.
@@ -254,16 +256,37 @@ def normalMatrix (A : List (V3 α)) : M3 α :=
 def normalRhs (Ab : List (V3 α × α)) : V3 α :=
   ⟨sumMap (fun r => r.1.x * r.2) Ab, sumMap (fun r => r.1.y * r.2) Ab, sumMap (fun r => r.1.z * r.2) Ab⟩
 
-/-- The contract of `np.linalg.lstsq(A, b)[0]` for an `n×3` system: the solution of the normal equations; when
-the third column of `A` vanishes identically (planar mesh) the minimum-norm solution = the 2×2 normal equations
-in `x, y` and `0` for the third unknown. -/
-def lstsq3 (Ab : List (V3 α × α)) : V3 α :=
+/-- Sum of the principal 2×2 minors (= trace of the adjugate = `λ₁λ₂ + λ₁λ₃ + λ₂λ₃`). -/
+def adjTrace (m : M3 α) : α :=
+  (m.a22 * m.a33 - m.a23 * m.a32) + (m.a11 * m.a33 - m.a13 * m.a31) + (m.a11 * m.a22 - m.a12 * m.a21)
+
+def M3.trace (m : M3 α) : α := m.a11 + m.a22 + m.a33
+
+/-- The contract of `np.linalg.lstsq(A, b, rcond=None)[0]` for an `n×3` system: the MINIMUM-NORM least-squares
+solution `A⁺b`, where singular values below the rank cut-off count as zero.  In terms of `M = AᵀA` (eigenvalues
+`λ₁ ≥ λ₂ ≥ λ₃ ≥ 0` = squared singular values), `r = Aᵀb`, `t = tr M`, `e₂ = tr adj M`:
+
+* rank 3 (`det M > rtol·e₂·t`, i.e. `λ₃/λ₁` above the cut-off): the normal equations `M⁻¹ r`;
+* rank 2 (`det M ≤ rtol·e₂·t`: all rows of `A` in one plane, any orientation): on the range of `M` Cayley–Hamilton gives
+  `M⁺ = (t·I − M)/e₂`, so `A⁺b = (t·I − M) r/e₂` – for `b = A g` this is `g` minus its component normal to the plane;
+* rank ≤ 1 (`e₂ ≤ rtol·t²`: all rows on one line): `r/t`; no rows / all rows zero: `0`.
+
+`rtol` stands for LAPACK's relative cut-off (`rcond = eps·max(n,3)` on the singular values, i.e. its square on the
+eigenvalue ratios); the driver runs with `1e-12`, the theorems hold for every `rtol ≥ 0`. -/
+def lstsq3 (rtol : α) (Ab : List (V3 α × α)) : V3 α :=
   let A := Ab.map (·.1)
   let M := normalMatrix A
   let r := normalRhs Ab
-  if A.all (fun a => isZero a.z) then
-    let d := det2 M.a11 M.a12 M.a21 M.a22
-    ⟨(M.a22 * r.x - M.a12 * r.y) / d, (M.a11 * r.y - M.a21 * r.x) / d, 0.0⟩
+  let t := M.trace
+  let e2 := adjTrace M
+  if e2 ≤ rtol * (t * t) then
+    if t ≤ 0.0 then V3.zero else ⟨r.x / t, r.y / t, r.z / t⟩
+  else if det3 M ≤ rtol * (e2 * t) then
+    -- `(t·I − M) r / e₂`, the diagonal of `t·I − M` written without the cancelling term (for a mesh in a coordinate
+    -- plane this is Cramer's rule for the 2×2 normal equations)
+    ⟨((M.a22 + M.a33) * r.x - M.a12 * r.y - M.a13 * r.z) / e2,
+     (-M.a21 * r.x + (M.a11 + M.a33) * r.y - M.a23 * r.z) / e2,
+     (-M.a31 * r.x - M.a32 * r.y + (M.a11 + M.a22) * r.z) / e2⟩
   else (inv3 M).mulVec r
 
 /-- Position of `id` in the sorted node ids (`Index.get_indexer`, the repaired addressing). -/
@@ -281,8 +304,8 @@ def nodeData (rows : List (MRow α)) (ids : List Int) (cnt : Nat → α) : List 
     ((rs.head?.map (·.p)).getD default, sumMap (·.v) rs / cnt rs.length)
 
 /-- `Gradient.gradient_of`: per sorted node id the least-squares gradient.  `cnt` turns a row count into the
-carrier (`Nat.toFloat`, `Nat.cast`). -/
-def gradientLsq (cnt : Nat → α) (rows : List (MRow α)) : List (Int × V3 α) :=
+carrier (`Nat.toFloat`, `Nat.cast`), `rtol` is the rank cut-off of `lstsq3`. -/
+def gradientLsq (rtol : α) (cnt : Nat → α) (rows : List (MRow α)) : List (Int × V3 α) :=
   let ids := sortedUnique (rows.map (·.node))
   let data := (nodeData rows ids cnt).toArray
   let zero : V3 α × α := (default, 0.0)
@@ -291,7 +314,7 @@ def gradientLsq (cnt : Nat → α) (rows : List (MRow α)) : List (Int × V3 α)
     let Ab := (neighbors rows id).map fun nb =>
       let d := data.getD (indexOf ids nb) zero
       (d.1.sub row.1, d.2 - row.2)
-    (id, lstsq3 Ab)
+    (id, lstsq3 rtol Ab)
 
 /-! ## Barycentric interpolation in one simplex (`griddata(method='linear')`) -/
 
@@ -318,6 +341,43 @@ def baryWeights2 (x0 y0 x1 y1 x2 y2 px py : α) : α × α × α :=
 def baryInterp2 (x0 y0 x1 y1 x2 y2 f0 f1 f2 px py : α) : α :=
   let w := baryWeights2 x0 y0 x1 y1 x2 y2 px py
   w.1 * f0 + w.2.1 * f1 + w.2.2 * f2
+
+/-! ## `Meshmapper.process`: `griddata(method='linear')` on a triangulation -/
+
+/-- `p` lies in the tetrahedron (every barycentric weight `≥ −tol`; false for NaN weights of a flat simplex). -/
+def inTet (tol : α) (t : Tet α) (p : V3 α) : Bool :=
+  let w := baryWeights3 t.c1.p t.c2.p t.c3.p t.c4.p p
+  decide (-tol ≤ w.1) && decide (-tol ≤ w.2.x) && decide (-tol ≤ w.2.y) && decide (-tol ≤ w.2.z)
+
+def tetInterp (t : Tet α) (p : V3 α) : α :=
+  baryInterp3 t.c1.p t.c2.p t.c3.p t.c4.p t.c1.f t.c2.f t.c3.f t.c4.f p
+
+/-- Linear interpolation on a list of tetrahedra: the value in the first one that contains `p`, `none` (NaN in
+the code) when `p` is outside all of them. -/
+def mapMesh3 (tol : α) (tets : List (Tet α)) (p : V3 α) : Option α :=
+  (tets.find? (inTet tol · p)).map (tetInterp · p)
+
+/-- A triangle of a 2-D mesh: corner coordinates and nodal values. -/
+structure Tri (α : Type) where
+  x0 : α
+  y0 : α
+  x1 : α
+  y1 : α
+  x2 : α
+  y2 : α
+  f0 : α
+  f1 : α
+  f2 : α
+
+def inTri (tol : α) (t : Tri α) (px py : α) : Bool :=
+  let w := baryWeights2 t.x0 t.y0 t.x1 t.y1 t.x2 t.y2 px py
+  decide (-tol ≤ w.1) && decide (-tol ≤ w.2.1) && decide (-tol ≤ w.2.2)
+
+def triInterp (t : Tri α) (px py : α) : α :=
+  baryInterp2 t.x0 t.y0 t.x1 t.y1 t.x2 t.y2 t.f0 t.f1 t.f2 px py
+
+def mapMesh2 (tol : α) (tris : List (Tri α)) (px py : α) : Option α :=
+  (tris.find? (inTri tol · px py)).map (triInterp · px py)
 
 end Numeric
 
@@ -369,8 +429,9 @@ def maxOf : List α → Option α
 `cap = some t` is `artefact_threshold`: only values `< t` enter the maximum. -/
 def hotspotCore [Mul α] (n : Nat) (adj : Nat → Nat → Bool) (val : Nat → α) (frac : α) (cap : Option α) : List Nat :=
   let idx := List.range n
+  -- `Series.max` skips NaN (`val i ≤ val i` is false exactly for NaN; `NaN < t` is false anyway)
   let cand := match cap with
-    | none => idx
+    | none => idx.filter (fun i => val i ≤ val i)
     | some t => idx.filter (fun i => val i < t)
   match maxOf (cand.map val) with
   | none => idx.map (fun _ => 0)
@@ -411,5 +472,22 @@ elements meet there. -/
 def surfaceFlags (rows : List (Int × Int)) : List (Int × Bool) :=
   (sortedUnique (rows.map (·.1))).map fun id =>
     (id, decide ((sortedUnique ((rows.filter (·.1 == id)).map (·.2))).length < 8))
+
+/-- Local corner offsets of a hexahedron of the block, in the element's local node order. -/
+def hexOffsets : List (Nat × Nat × Nat) :=
+  [(0, 0, 0), (1, 0, 0), (1, 1, 0), (0, 1, 0), (0, 0, 1), (1, 0, 1), (1, 1, 1), (0, 1, 1)]
+
+/-- Number of grid node `(i, j, k)` of an `nx × ny × nz` block, `x` fastest. -/
+def gridNode (nx ny i j k : Nat) : Nat := i + (nx + 1) * (j + (ny + 1) * k)
+
+/-- Number of the cell with lower corner `(a, b, c)`. -/
+def gridElem (nx ny a b c : Nat) : Nat := a + nx * (b + ny * c)
+
+/-- The `(node_id, element_id)` rows of the hexahedral block mesh with `nx × ny × nz` cells; `nid` / `eid` map grid
+numbers to the ids of the frame. -/
+def blockRows (nx ny nz : Nat) (nid eid : Nat → Int) : List (Int × Int) :=
+  (List.range nz).flatMap fun c => (List.range ny).flatMap fun b => (List.range nx).flatMap fun a =>
+    hexOffsets.map fun (d : Nat × Nat × Nat) =>
+      (nid (gridNode nx ny (a + d.1) (b + d.2.1) (c + d.2.2)), eid (gridElem nx ny a b c))
 
 end PylifeVerif.Mesh
